@@ -27,7 +27,7 @@ pub struct Create {
     /// This option is only used when projecting, and otherwise set to zero since the output must
     /// be integer counts.
     #[arg(long, default_value_t = 6, value_name = "INT")]
-    precision: usize,
+    precision: u16,
 
     #[command(flatten)]
     project: Option<Project>,
@@ -143,7 +143,7 @@ fn parse_sample_population(s: &str) -> Result<(Sample, sample::Population), clap
 
 impl Create {
     pub fn run(self) -> Result<(), Error> {
-        let precision = self.project.as_ref().map_or(0, |_| self.precision);
+        let precision = self.project.as_ref().map_or(0, |_| usize::from(self.precision));
 
         let reader = site::reader::Builder::default()
             .set_samples(self.samples.map(Into::into))
